@@ -448,31 +448,43 @@ def m_range_rev(it, p, callee, args):
     return Tup([args[0]], "Rev")
 
 
+def _sval(x):
+    """concrete value of an Int, honouring signedness"""
+    v = _cint(x)
+    if x.signed and v >= (1 << (x.w - 1)):
+        v -= 1 << x.w
+    return v
+
+
+def _mk_like(it, x, v):
+    return Int(it.be.const(v, x.w), x.w, x.signed)
+
+
 def m_rev_range_next(it, p, callee, args):
     rev = deref(args[0])
     rng = rev.f[0]
-    lo, hi = _cint(rng.f[0]), _cint(rng.f[1])
+    lo, hi = _sval(rng.f[0]), _sval(rng.f[1])
     if lo < hi:
-        rng.f[1] = it.const_int(hi - 1, "usize")
-        return some(it, it.const_int(hi - 1, "usize"))
+        rng.f[1] = _mk_like(it, rng.f[1], hi - 1)
+        return some(it, _mk_like(it, rng.f[1], hi - 1))
     return none(it)
 
 
 def m_range_next(it, p, callee, args):
     rng = deref(args[0])
-    lo, hi = _cint(rng.f[0]), _cint(rng.f[1])
+    lo, hi = _sval(rng.f[0]), _sval(rng.f[1])
     if lo < hi:
-        rng.f[0] = it.const_int(lo + 1, "usize")
-        return some(it, it.const_int(lo, "usize"))
+        rng.f[0] = _mk_like(it, rng.f[0], lo + 1)
+        return some(it, _mk_like(it, rng.f[0], lo))
     return none(it)
 
 
 RANGE_MODELS = {
-    r"^<std::ops::Range<usize> as Iterator>::rev$": m_range_rev,
-    r"^<Rev<std::ops::Range<usize>> as IntoIterator>::into_iter$": m_identity,
-    r"^<std::ops::Range<usize> as IntoIterator>::into_iter$": m_identity,
-    r"^<Rev<std::ops::Range<usize>> as Iterator>::next$": m_rev_range_next,
-    r"^<std::ops::Range<usize> as Iterator>::next$": m_range_next,
+    r"^<std::ops::Range<[iu]\w+> as Iterator>::rev$": m_range_rev,
+    r"^<Rev<std::ops::Range<[iu]\w+>> as IntoIterator>::into_iter$": m_identity,
+    r"^<std::ops::Range<[iu]\w+> as IntoIterator>::into_iter$": m_identity,
+    r"^<Rev<std::ops::Range<[iu]\w+>> as Iterator>::next$": m_rev_range_next,
+    r"^<std::ops::Range<[iu]\w+> as Iterator>::next$": m_range_next,
 }
 
 SLICE_MODELS = {
